@@ -451,7 +451,7 @@ def circuit_nets(chunk, r):
         alphabet = list(FORMAT_TYPES) if fmt_only else G.ALL_TYPES
         for _ in range(count):
             net = G.random_net(r, n_inputs=r.randint(0, 4), k_gates=r.randint(0, 9), alphabet=alphabet, max_nary=2 if fmt_only else 4,
-                               max_outputs=4, allow_no_outputs=True, permute_storage=False)
+                               max_outputs=4, allow_no_outputs=True, permute_storage=False, large_every=60)
             if fmt_only:
                 # constants without operands (the generator may give none anyway)
                 net = N.Net(net.inputs, net.outputs, {g: (t, () if t in S.CONST else o) for g, (t, o) in net.gates.items()})
